@@ -529,7 +529,7 @@ def observe_sequence(case):
             I.args[prim] = shared
             with warnings.catch_warnings():
                 warnings.simplefilter("ignore")
-                outs.append(f(**I.args, **kw))
+                outs.append((fname, f(**I.args, **kw)))
             st = "ok"
         except Exception as ex:
             st = "raised:" + type(ex).__name__
@@ -544,7 +544,7 @@ def observe_sequence(case):
             break
     # writing to any of the outputs afterwards must not reach the shared raster either
     if not res["modified"]:
-        for fname, out in zip(case["funcs"], outs):
+        for fname, out in outs:
             if fname in VIEWS:
                 continue
             for o in out_arrays(out):
